@@ -200,6 +200,19 @@ impl KeyValueStore {
         Ok(md.biggest_timestamp)
     }
 
+    #[cfg(rescrv_blue_verif)]
+    pub fn verif_tree(&self) -> &LsmTree {
+        &self.tree
+    }
+
+    #[cfg(rescrv_blue_verif)]
+    pub fn verif_wake_all(&self) {
+        let _state = self.state.lock().unwrap();
+        self.cnd_needs_memtable_flush.notify_all();
+        self.cnd_memtable_rolled_over.notify_all();
+        self.tree.verif_wake_all();
+    }
+
     pub fn compaction_thread(&self) -> Result<(), SError> {
         self.poison(self.tree.compaction_thread())
     }
@@ -214,7 +227,16 @@ impl KeyValueStore {
             let (imm, imm_log, imm_path, imm_trigger) = {
                 let mut state = self.state.lock().unwrap();
                 while state.imm_trigger < state.mem_seq_no {
+                    #[cfg(rescrv_blue_verif)]
+                    if crate::verif::step_mode() || crate::verif::stop() {
+                        crate::verif::set_last_idle(true);
+                        return Ok(());
+                    }
+                    #[cfg(rescrv_blue_verif)]
+                    crate::verif::parked_enter();
                     state = self.cnd_needs_memtable_flush.wait(state).unwrap();
+                    #[cfg(rescrv_blue_verif)]
+                    crate::verif::parked_exit();
                 }
                 let imm = Arc::clone(&state.mem);
                 let imm_log = Arc::clone(&state.mem_log);
@@ -278,6 +300,14 @@ impl KeyValueStore {
             state.imm = None;
             state.imm_trigger = imm_trigger;
             self.cnd_memtable_rolled_over.notify_all();
+            #[cfg(rescrv_blue_verif)]
+            {
+                crate::verif::progressed();
+                if crate::verif::step_mode() {
+                    crate::verif::set_last_idle(false);
+                    return Ok(());
+                }
+            }
         }
     }
 
@@ -338,6 +368,8 @@ impl KeyValueStore {
             let wait_guard = self.wait_list.link(());
             let seq_no = state.seq_no + 1;
             state.seq_no = seq_no;
+            #[cfg(rescrv_blue_verif)]
+            crate::verif::yield_point(1);
             for entry in batch.entries.iter_mut() {
                 entry.timestamp = seq_no;
             }
@@ -355,7 +387,11 @@ impl KeyValueStore {
             log_batch.insert(KeyValueRef::from(entry))?;
         }
         self.poison(log.append(log_batch))?;
+        #[cfg(rescrv_blue_verif)]
+        crate::verif::yield_point(2);
         self.poison(memtable.write(&mut batch))?;
+        #[cfg(rescrv_blue_verif)]
+        crate::verif::yield_point(3);
         drop(memtable);
         drop(log);
         let mut state = self.state.lock().unwrap();
